@@ -3,12 +3,14 @@
 import json, os, shutil, sys
 ROOT = os.path.dirname(os.path.dirname(os.path.abspath(__file__)))
 prop, n, summary, needs = sys.argv[1:5]
-src = f"/tmp/seed/{prop}/seeded/{n}"
-dst = os.path.join(ROOT, "seeded", f"{prop}-{n}")
+srcroot = os.environ.get("SEED_ROOT", "/tmp/seed")
+off = int(os.environ.get("SEED_OFFSET", "0"))
+src = f"{srcroot}/{prop}/seeded/{n}"
+dst = os.path.join(ROOT, "seeded", f"{prop}-{int(n)+off}")
 if os.path.isdir(dst):
     shutil.rmtree(dst)
 shutil.copytree(src, dst, ignore=shutil.ignore_patterns("target", "*.log"))
-json.dump({"property": prop, "summary": summary, "needs": needs,
+json.dump({"property": prop, "summary": summary, "needs": needs, "round": 2 if off else 1, "fixture_n": int(n),
            "origin": "independent sub-agent given only the property text and a scratch worktree of /repo"},
           open(os.path.join(dst, "meta.json"), "w"), indent=1)
 print(dst, os.listdir(dst))
